@@ -264,9 +264,100 @@ def build_reference(root: str) -> dict:
             for q, node in functions(tree):
                 names = locals_in_order(node)
                 sym = sorted({ast.unparse(c) for c in _sym_compares(node)})
-                if names or sym:
-                    out[f"{rel}::{q}"] = {"locals": names, "digest": digest(node), "sym": sym}
+                out[f"{rel}::{q}"] = {"locals": names, "digest": digest(node), "sym": sym, "src": ast.unparse(node),
+                                      "params": [a.arg for a in node.args.args]}
     return out
+
+
+def signatures() -> Dict[str, List[str]]:
+    """name -> positional parameter names, for module-level functions of the reference whose name is unique."""
+    global _sigs
+    if _sigs is None:
+        seen: Dict[str, List[List[str]]] = {}
+        for k, r in reference().items():
+            q = k.split("::", 1)[1]
+            if "." not in q:
+                seen.setdefault(q, []).append(r.get("params", []))
+        _sigs = {k: v[0] for k, v in seen.items() if len(v) == 1}
+    return _sigs
+
+
+_sigs: Optional[Dict[str, List[str]]] = None
+_nf_cache: Dict[str, str] = {}
+
+
+def _ref_nf(key: str, r: dict) -> str:
+    if key not in _nf_cache:
+        from .normal import normal_form as nf
+
+        node = ast.parse(r["src"]).body[0]
+        _nf_cache[key] = digest(nf(node, signatures()))
+    return _nf_cache[key]
+
+
+def _replace_def(tree, old, new) -> bool:
+    for parent in ast.walk(tree):
+        for _, value in ast.iter_fields(parent):
+            if isinstance(value, list):
+                for j, v in enumerate(value):
+                    if v is old:
+                        value[j] = new
+                        return True
+    return False
+
+
+def restore_refactored(tree: ast.Module, relpath: str) -> List[str]:
+    """A function whose normal form (sa/normal.py) equals the reference function's is replaced, in the model, by the
+    reference text: the two are the same function in different dress."""
+    from .normal import normal_form as nf
+
+    ref = reference()
+    done = []
+    funcs = functions(tree)
+    known = {q for q, _ in funcs if f"{relpath}::{q}" in ref}
+    new_helpers = [(q, n) for q, n in funcs if f"{relpath}::{q}" not in ref]
+    used_helpers = set()
+    for q, node in sorted(funcs, key=lambda x: -x[0].count(".")):
+        key = f"{relpath}::{q}"
+        r = ref.get(key)
+        if r is None or "src" not in r or digest(node) == r["digest"]:
+            continue
+        cls = q.rsplit(".", 1)[0] if "." in q else None
+        helpers = {}
+        for hq, hn in new_helpers:
+            if "." not in hq:
+                helpers[hq] = hn
+            elif cls is not None and hq.rsplit(".", 1)[0] == cls:
+                hn._is_method = True
+                helpers[hq.rsplit(".", 1)[1]] = hn
+        try:
+            cur = digest(nf(node, signatures(), helpers=helpers, in_class=cls is not None))
+            if cur != _ref_nf(key, r):
+                continue
+        except RecursionError:
+            continue
+        new = ast.parse(r["src"]).body[0]
+        ast.copy_location(new, node)
+        for n in ast.walk(new):
+            if not hasattr(n, "lineno") or True:
+                n.lineno = getattr(node, "lineno", 1)
+                n.col_offset = 0
+                n.end_lineno = getattr(node, "end_lineno", n.lineno)
+                n.end_col_offset = 0
+        if _replace_def(tree, node, new):
+            done.append(f"{key}: same normal form as the reference function - analysed in the reference's shape")
+            used_helpers |= {h for h in helpers if any((isinstance(x, ast.Name) and x.id == h) or (isinstance(x, ast.Attribute) and x.attr == h) for x in ast.walk(node))}
+    # helpers that only served restored functions are no longer part of the analysed program
+    for hq, hn in new_helpers:
+        name = hq.rsplit(".", 1)[-1]
+        if name in used_helpers:
+            still = any(((isinstance(x, ast.Name) and x.id == name) or (isinstance(x, ast.Attribute) and x.attr == name)) for x in ast.walk(tree) if x is not hn)
+            inside = {id(x) for x in ast.walk(hn)}
+            still = any(((isinstance(x, ast.Name) and x.id == name) or (isinstance(x, ast.Attribute) and x.attr == name)) and id(x) not in inside for x in ast.walk(tree))
+            if not still:
+                _replace_def(tree, hn, ast.Pass())
+                done.append(f"{relpath}::{hq}: helper inlined into its only callers")
+    return done
 
 
 def apply(tree: ast.Module, relpath: str) -> List[str]:
@@ -296,4 +387,5 @@ def apply(tree: ast.Module, relpath: str) -> List[str]:
         _rename(node, tmp)
         _rename(node, {f"__alpha_tmp_{i}": name for i, name in enumerate(r["locals"])})
         done.append(f"{relpath}::{q}: " + ", ".join(f"{c}->{n}" for c, n in zip(cur, r["locals"]) if c != n))
+    done += restore_refactored(tree, relpath)
     return done
